@@ -204,6 +204,21 @@ def run(ck):
               "after the read, fewer bytes written than the destination holds is an error (tested on the cursor position, so it also holds for chunked byte strings)" if len(good) == 1 else
               "no test after the read that the bytes actually written fill the fixed-size destination: a chunked byte string shorter than the destination is accepted, the rest stays zero", g.loc())
     ck.floor("CMP", "fixed-size byte string decoders", nfx, 1)
+    # unknown entries kept in an `other` map are written back one by one, unconditionally, and the announced map size counts
+    # all of them: dropping some (e.g. those whose value is null) loses data the type promised to preserve
+    nloop = 0
+    for pth in sorted(p2 for p2 in cg.bodies if re.search(r"cbor::CborSerialize>::serialize$", p2)):
+        g = Fn(cg.bodies[pth][0])
+        for (bi, t) in g.calls(r"cbor::CborMapEncoder::serialize_entry$|cbor::CborArrayEncoder::serialize_element$"):
+            if bi not in g.reach_from(g.succ(bi)):
+                continue
+            nloop += 1
+            conds = [(k2, v) for (k2, nn, v) in conditions_at(g, bi, same_loop=True) if k2 != "discr"]
+            ck.ob("COV", pth, "looped-entry-written-unconditionally@bb%d" % bi, not conds,
+                  "every entry of the iterated collection is written" if not conds else "entries are written only under %s: some entries of the collection are silently dropped on encoding" % conds, g.loc(bi))
+        for (bi, t) in g.calls(r"iter::Iterator::(filter|filter_map|skip|take|step_by|take_while|skip_while)$"):
+            ck.ob("COV", pth, "collection-not-filtered@%s" % t["f"]["name"], False, "the encoder applies %s to a collection it encodes (size or contents no longer those of the value)" % t["f"]["name"], g.loc(bi))
+    ck.floor("COV", "entries written inside loops by CBOR encoders", nloop, 4)
     ta = find_impl(ck, "rs", CB, r"token_amount::TokenAmount$", r"cbor::CborDeserialize$", "deserialize")
     if ta:
         neg = ta.calls(r"num::<impl i\d+>::checked_neg$")
